@@ -319,18 +319,36 @@ def term1(ctx, c):
         if q == "Program.process_mnemonics":
             guarded = False
             params = [p for p in f.params if p not in ("self", "cls")]
-            for n in ast.walk(f.node):
+            from ..inline import flatten as _fl
+            fnode = _fl(repo, f, depth=2, only={m_ for m_ in (f.cls.methods if f.cls else {}) if m_ not in ("process_mnemonics", "parse")})
+            for n in ast.walk(fnode):
                 if isinstance(n, ast.If) and isinstance(n.test, ast.Compare) and isinstance(n.test.ops[0], ast.In) and U(n.test.comparators[0]) in params \
                         and n.body and isinstance(n.body[-1], ast.Raise):
                     trail = U(n.test.comparators[0])
                     key = U(n.test.left)
-                    for rcall in ast.walk(f.node):
+                    for rcall in ast.walk(fnode):
                         if isinstance(rcall, ast.Call) and U(rcall.func).endswith("process_mnemonics"):
                             rest = [U(a) for a in rcall.args[1:]] + [U(k.value) for k in rcall.keywords]
                             if any(trail in a and key in a for a in rest):
                                 guarded = True
+            dropped = None
+            for n in ast.walk(fnode):
+                if isinstance(n, ast.If) and isinstance(n.test, ast.Compare) and isinstance(n.test.ops[0], ast.In) and U(n.test.comparators[0]) in params \
+                        and n.body and isinstance(n.body[-1], ast.Raise):
+                    trail, key = U(n.test.comparators[0]), U(n.test.left)
+                    for rcall in ast.walk(fnode):
+                        if isinstance(rcall, ast.Call) and U(rcall.func).endswith("process_mnemonics"):
+                            rest = [U(a) for a in rcall.args[1:]] + [U(k.value) for k in rcall.keywords]
+                            if rest and not any(trail in a for a in rest) and any(key in a for a in rest):
+                                dropped = (trail, rest)
             if guarded:
                 c.ok("recursion:%s" % q, "bounded by a visited set / depth check", w)
+            elif dropped:
+                c.finding("recursion:%s" % q, "the trail of files being expanded is not passed on (%s)" % dropped[1][0][:40],
+                          "process_mnemonics checks the file against `%s` but calls itself with %s: the check only ever sees the immediate parent, so a cycle through two files recurses until RecursionError"
+                          % (dropped[0], dropped[1]), w)
+            elif any(isinstance(x, ast.Raise) for x in ast.walk(fnode)) and len(params) > 1:
+                c.undecided("recursion:%s" % q, "a trail parameter and a raise exist but the cycle check was not recognised", "", w)
             else:
                 c.finding("recursion:%s" % q, "recursion on file contents without a visited set or depth bound",
                           "process_mnemonics recurses into every INCLUDE with no record of the files being expanded: a file that includes itself ends in RecursionError", w)
